@@ -2,7 +2,7 @@
    DBNInference's interface algorithm as coded, BeliefPropagation replaced by its specification);
    Spec: coq/C17/Spec.v (brute-force marginal of the unrolled network). *)
 From Coq Require Import List Arith Bool PeanoNat Lia QArith Qcanon.
-From PV Require Import Base.Semiring Base.Ravel Base.FinSum Base.RefFactor C17.Model C17.Spec C17.Proofs C17.ProofsInduction C17.ProofsEvidenceAll C17.ProofsEvidenceMore C17.ProofsFinite.
+From PV Require Import Base.Semiring Base.Ravel Base.FinSum Base.RefFactor C17.Model C17.Spec C17.Proofs C17.ProofsInduction C17.ProofsEvidenceAll C17.ProofsEvidenceMore C17.ProofsBackward C17.ProofsFinite.
 Import ListNotations.
 Local Open Scope nat_scope.
 
@@ -400,3 +400,107 @@ Proof.
   exact (forward_is_posterior_any N cards HN F0 F1 I0 I1 ev H1 H2 H3 H4 H5 H6 H7 H8 H9 qn tq H11 H12 H13 H14 H15 H16 H17).
 Qed.
 Print Assumptions C17_forward_filtering_with_evidence_any_slices.
+
+(* ---- the backward (smoothing) pass, all T, all templates of the class (ProofsBackward.v).
+   Additional hypotheses: CPD entries are non-negative (the 0/0 = 0 convention of the ratio update needs: a vanishing
+   forward potential is a vanishing sum of non-negative terms, so every term vanishes), positive cardinalities, at
+   least one inter edge, every variable has a slice-1 CPD; evidence on non-interface variables in any slices; one
+   unobserved query variable of a slice k = S kq >= 1.
+   (B1) [partial: the backward message is characterised by the textbook recursion, not yet in the unrolled frame]
+   backward_inference = query returns the normalised FORWARD-BACKWARD product: with
+     beta_from t r = the backward recursion of the 2-TBN (beta = 1 at the horizon, beta_{t-1} = sum over slice t of
+                     transition CPDs at e_t x beta_t), read on the slice-1 interface,
+     Wb r x = sum over all other variables of  alpha_{k-1}(I_{k-1}) x transition CPDs of slice k at e_k x
+              beta_from k r (I_k)  with the query variable at x,  where alpha_{k-1} = ProofsEvidenceAll.potE is the
+              forward message proved equal to the unrolled marginal (C17_forward_message_with_evidence),
+   the answer is normalise (Wb (T - k)), error 5 when that or the forward normaliser vanishes.  Inside the proof:
+   the update factor entering every slice t >= k is (forward potential of slice t) x beta_from t (T - t)
+   (induction from T down, ProofsBackward.bwd_fold_nq), every ratio old * message / potential is finite, and the
+   engine re-initialisation after the query does not reach the answer.
+   Missing for the full statement: beta_from k (T - k) = sum over the variables of slices k+1..T of the unrolled
+   transition parts at e_{k+1..T} (a second merge, in the future direction) and the permutation to Spec's order. *)
+Theorem C17_smoothing_forward_backward_partial N cards (F0 F1 : list (factor Qc_sum_csr)) (I0 I1 : list var) (ev : evidence) qn kq :
+  N <> 0 ->
+  Forall (fun f : factor Qc_sum_csr => NoDup (fvars f)) F0 ->
+  Forall (fun f : factor Qc_sum_csr => NoDup (fvars f)) F1 ->
+  (forall v, In v (scope_of F1) -> v < N -> In v I0) ->
+  (forall v, In v I0 -> v < N) ->
+  (forall v, In v I0 -> In v (scope_of F1)) ->
+  (forall v, In v I1 <-> exists n, In n I0 /\ v = n + N) ->
+  (forall e, In e ev -> fst (fst e) < N /\ ~ In (fst (fst e)) I0) ->
+  (forall v, 0 < card N cards v) ->
+  I0 <> [] ->
+  (forall n, n < N -> In (n + N) (scope_of F1)) ->
+  (forall f, In f F0 -> Forall (fun x => (Q2Qc 0 <= x)%Qc) (fvals f)) ->
+  (forall f, In f F1 -> Forall (fun x => (Q2Qc 0 <= x)%Qc) (fvals f)) ->
+  qn < N ->
+  In (enc N (qn, 1)) (scope_of F1) ->
+  ~ In (qn, S kq) (map fst ev) ->
+  backward_inference N cards F0 F1 I0 I1 [(qn, S kq)] ev =
+  match bp_query N cards (F1 ++ [potE N cards F0 F1 I0 I1 ev kq]) (enc N (qn, 1)) (evf N ev (S kq)) with
+  | Some _ =>
+      match normalise (map (Wb N cards F0 F1 I0 I1 ev qn kq (time_range [(qn, S kq)] ev - S kq))
+                           (seq 0 (card N cards (enc N (qn, 1))))) with
+      | Some v => Ok [((qn, S kq), v)]
+      | None => Err 5
+      end
+  | None => Err 5
+  end.
+Proof.
+  intros HN H1 H2 H3 H4 H5 H6 H7 H8 H9 H10 H11 H12 H13 H14 H15.
+  exact (backward_run N cards HN F0 F1 I0 I1 ev H1 H2 H3 H4 H5 H6 H7 H8 H9 H10 H11 H12 qn kq H13 H14 H15).
+Qed.
+Print Assumptions C17_smoothing_forward_backward_partial.
+
+(* (B2) FULL statement for a query variable of the last slice (all evidence in slices <= T = S kq): smoothing returns
+   the posterior of the network unrolled to T given all the evidence (Spec.spec_smooth), error 5 exactly when P(e) = 0 *)
+Theorem C17_smoothing_last_slice N cards (F0 F1 : list (factor Qc_sum_csr)) (I0 I1 : list var) (ev : evidence) qn kq :
+  N <> 0 ->
+  Forall (fun f : factor Qc_sum_csr => NoDup (fvars f)) F0 ->
+  Forall (fun f : factor Qc_sum_csr => NoDup (fvars f)) F1 ->
+  (forall v, In v (scope_of F0) -> v < N) ->
+  (forall v, In v (scope_of F1) -> v < 2 * N) ->
+  (forall v, In v (scope_of F1) -> v < N -> In v I0) ->
+  (forall v, In v I0 -> v < N) ->
+  (forall v, In v I0 -> In v (scope_of F1)) ->
+  (forall v, In v I1 <-> exists n, In n I0 /\ v = n + N) ->
+  (forall e, In e ev -> fst (fst e) < N /\ ~ In (fst (fst e)) I0) ->
+  (forall v, 0 < card N cards v) ->
+  I0 <> [] ->
+  (forall n, n < N -> In (n + N) (scope_of F1)) ->
+  (forall f, In f F0 -> Forall (fun x => (Q2Qc 0 <= x)%Qc) (fvals f)) ->
+  (forall f, In f F1 -> Forall (fun x => (Q2Qc 0 <= x)%Qc) (fvals f)) ->
+  qn < N ->
+  In (enc N (qn, 1)) (scope_of F1) ->
+  ~ In (qn, S kq) (map fst ev) ->
+  (forall n, n < N -> In n (scope_of F0)) ->
+  NoDup (map fst ev) ->
+  (forall e, In e ev -> snd (fst e) <= S kq) ->
+  backward_inference N cards F0 F1 I0 I1 [(qn, S kq)] ev =
+  match spec_smooth N cards F0 F1 (S kq) (qn, S kq) ev with
+  | Some v => Ok [((qn, S kq), v)]
+  | None => Err 5
+  end.
+Proof.
+  intros HN H1 H2 H3 H4 H5 H6 H7 H8 H9 H10 H11 H12 H13 H14 H15 H16 H17 H18 H19 H20.
+  exact (backward_last_slice N cards HN F0 F1 I0 I1 ev H1 H2 H3 H4 H5 H6 H7 H8 H9 H10 H11 H12 H13 H14 qn kq H15 H16 H17 H18 H19 H20).
+Qed.
+Print Assumptions C17_smoothing_last_slice.
+
+(* non-vacuity: the template of C17_forward_filtering_with_evidence_example has non-negative CPDs, an inter edge,
+   and the backward pass answers with the specification's posterior, for the last slice and for an earlier slice *)
+Example C17_smoothing_example :
+  let F0 := [mkF [0] [q4 1; q4 3]; mkF [1; 0] [q4 1; q4 2; q4 3; q4 2]] in
+  let F1 := [mkF [2; 0] [q4 3; q4 1; q4 1; q4 3]; mkF [3; 2] [q4 1; q4 2; q4 3; q4 2]] in
+  let ev : evidence := [((1, 0), 1); ((1, 2), 0)] in
+  (forall f, In f (F0 ++ F1) -> Forall (fun x => (Q2Qc 0 <= x)%Qc) (fvals f)) /\
+  (exists v, backward_inference 2 [2; 2] F0 F1 [0] [2] [(1, 1)] ev = Ok [((1, 1), v)] /\
+             spec_smooth 2 [2; 2] F0 F1 2 (1, 1) ev = Some v) /\
+  (exists v, backward_inference 2 [2; 2] F0 F1 [0] [2] [(0, 2)] ev = Ok [((0, 2), v)] /\
+             spec_smooth 2 [2; 2] F0 F1 2 (0, 2) ev = Some v).
+Proof.
+  cbn zeta. split; [|split].
+  - intros f Hf. cbn in Hf. repeat (destruct Hf as [<-|Hf]; [cbn; repeat constructor; discriminate|]). destruct Hf.
+  - eexists. split; vm_compute; reflexivity.
+  - eexists. split; vm_compute; reflexivity.
+Qed.
